@@ -90,18 +90,17 @@ theorem answer_fstatat (w : KS) (d : Fd) (n : Bytes) (f : Nat) :
     w.answer (.fstatat d n f) = .nums [S_IFLNK ||| 0o777, 0, 3, 5] := rfl
 theorem effect_fstatat (w : KS) (d : Fd) (n : Bytes) (f : Nat) : w.effect (.fstatat d n f) = w := rfl
 
-theorem execK_probe (w : KS) (n : Nat) (cand : Bytes) (rest : List Bytes) :
-    execK w (Sys.freeze.probe n (cand :: rest)) = (w, some (some cand)) := by
+theorem execK_probe (w : KS) (cand : Bytes) (rest : List Bytes) :
+    execK w (Sys.freeze.probe (cand :: rest)) = (w, cand) := by
   rw [Sys.freeze.probe.eq_2, execK_call, answer_fstatat, effect_fstatat]
   rfl
 
-theorem execK_freeze (w : KS) (n : Nat) (fd : Fd) : execK w (Sys.freeze (n + 1) fd) = (w, true) := by
-  rw [Sys.freeze.eq_2]
+theorem execK_freeze (w : KS) (fd : Fd) : execK w (Sys.freeze fd) = (w, ()) := by
+  unfold Sys.freeze
   have h1 : execK w Sys.gettid = (w, 1) := rfl
   rw [execK_bind_eq _ h1]
   unfold Sys.threadSelfCandidates
-  rw [execK_bind_eq _ (execK_probe w n _ _)]
-  simp only []
+  rw [execK_bind_eq _ (execK_probe w _ _)]
   cases Sys.procSubpath fd with
   | error e => rfl
   | ok sub => rfl
@@ -109,8 +108,7 @@ theorem execK_freeze (w : KS) (n : Nat) (fd : Fd) : execK w (Sys.freeze (n + 1) 
 theorem execK_failWith {α : Type} (w : KS) (d : Fd) (e : Nat) :
     execK w (Sys.failWith [d] e : M α) = (w, Except.error (Err.os e)) := by
   unfold Sys.failWith Sys.failWith.go
-  refine (execK_bind_eq _ (execK_freeze w 2 d)).trans ?_
-  simp only [↓reduceIte]
+  refine (execK_bind_eq _ (execK_freeze w d)).trans ?_
   unfold Sys.failWith.go
   rfl
 
